@@ -225,6 +225,17 @@ def all_jobs():
                       render_ns=['utf8helper'], globals_src='modules/utf8/utf8helper_charmap.cpp', enums=[],
                       globals=['extent:utf8helper::charmap_us7ascii', 'utf8helper::pagemap_16', 'utf8helper::pagemap_24_e1', 'utf8helper::pagemap_24_e2', 'utf8helper::pagemap_32_f0_90', 'utf8helper::pagemap_32_f0_9e'],
                       structs=['utf8helper::Parser', 'utf8helper::character']))
+    # ---- C13: stream readers ----
+    mg = '_ZN4bloc12StringReader4readEPNS_6ParserEPci'
+    J.append(dict(id='reader_string', src='blocc/string_reader.cpp', contract='reader_string.c', enforce=mg, roots=[mg], replace=[], cut=[],
+                  props=['C13'], pretty='bloc::StringReader::read', canaries=['normal'], unwind=9, bounded_inputs=True,
+                  unwind_why='texts of at most 6 bytes (every content, position and buffer size)', enums=[],
+                  structs=['bloc::StringReader', STD_STRING,
+                           '__gnu_cxx::__normal_iterator<char*, std::__cxx11::basic_string<char, std::char_traits<char>, std::allocator<char> > >']))
+    mg = '_ZN8ReadFile4readEPN4bloc6ParserEPci'
+    J.append(dict(id='reader_file', src='apps/read_file.cpp', contract='reader_file.c', enforce=mg, roots=[mg], replace=[], cut=[],
+                  props=['C13'], pretty='ReadFile::read', canaries=['normal'], unwind=9, bounded_inputs=True,
+                  unwind_why='files of at most 6 bytes (every content, position and buffer size)', enums=[], structs=['ReadFile']))
     # ---- generic builtin contracts (C01, C05): one job per builtin listed here ----
     for ent in BUILTINS_GENERIC:
         name, cls, nargs = ent[0], ent[1], ent[2]
